@@ -229,6 +229,26 @@ Definition dcontract (d : dm) (mat : option cmat) (rows cols : option cidx) : op
     else None
   end.
 
+(* ---- contract_multi: y[i] = sum over the stored entries (r, c, x) of mats[i] of x * A[r, c] *)
+Definition dmulti1 (d : dm) (m : mmat) : option C :=
+  match m with
+  | MNone => Some c0
+  | MSp tr _ =>
+    if forallb (fun e => in_rangeb (dr d) (fst (fst e)) && in_rangeb (dc d) (snd (fst e))) tr
+    then Some (csum (map (fun e => (snd e * mget (dmat d) (pos_of (dr d) (fst (fst e))) (pos_of (dc d) (snd (fst e))))%C) tr))
+    else None
+  | MDense m => match dcontract d (Some m) None None with
+                | Some (Ok (DVal (OScal x _))) => Some x
+                | _ => None
+                end
+  end.
+Definition dcontract_multi (d : dm) (mats : list mmat) : option (res dout) :=
+  if (dr d <? 0) || (dc d <? 0) then None else
+  match map_opt (dmulti1 d) mats with
+  | Some vals => Some (Ok (DVal (OVec vals (dflag d || existsb mmat_flag mats))))
+  | None => None
+  end.
+
 (* ---- programs on a store of dense matrices *)
 Definition dstore := list dm.
 
@@ -305,6 +325,11 @@ Definition dstep (o : op) (s : dstore) : option (dstore * res dout) :=
   | OContract a mat rows cols =>
     match nth_error s a with
     | Some d => match dcontract d mat rows cols with Some r => Some (s, r) | None => None end
+    | None => None
+    end
+  | OContractMulti a mats =>
+    match nth_error s a with
+    | Some d => match dcontract_multi d mats with Some r => Some (s, r) | None => None end
     | None => None
     end
   end.
